@@ -1075,6 +1075,86 @@ FILTERING = {"filter", "filter_iter"}
 EMPTY_ROOTS = ("Relation::map", "Map::builder", "MapBuilder::new", "MapBuilder::default", "Relation::reduce", "Reduce::builder")
 
 
+
+def b3(rep, src, rid="B3"):
+    """Map re-builders keep the clauses of the Map they start from."""
+    rep.rule(
+        rid,
+        "relation/builder.rs: every function that takes a Map apart (`let Map {name, projection, filter, order_by, limit, offset, ..} = map`) to rebuild it re-applies each of the clauses "
+        "filter / order_by / limit / offset unconditionally: `<clause>.into_iter().fold(builder, |b, v| b.<clause>(..v..))` with nothing between `into_iter()` and `fold`, or (filter_with) "
+        "the old filter conjoined with the new predicate and handed to `.filter(..)`",
+        floor=16,
+        necessary="tau_thresholding_values ends with filter_columns(count > tau) followed by filter_fields(..), which rebuilds the Map through filter_fields_with: a re-builder that drops or conditions the "
+        "filter releases every key; the same re-builders carry the WHERE / ORDER BY / LIMIT of user queries through the rewritings",
+    )
+    CL = ("filter", "order_by", "limit", "offset")
+    n = 0
+    for f in src.fns:
+        if f.test or not f.body or f.file != "relation/builder.rs":
+            continue
+        lets = [st for st in f.body["stmts"] if st["k"] == "let" and st["pat"]["k"] == "struct" and st["pat"]["path"]["segs"][-1] == "Map"]
+        if not lets:
+            continue
+        bound = {}
+        for fl in lets[0]["pat"].get("fields", []):
+            nm = fl["name"]
+            if nm in CL:
+                sub = fl.get("pat")
+                bound[nm] = sub["name"] if sub is not None and sub["k"] == "ident" else nm
+        rest = [st for st in f.body["stmts"] if st is not lets[0]]
+        for cl in CL:
+            key = "%s@%s" % (f.qual, cl)
+            n += 1
+            if cl not in bound:
+                rep.instance(rid, key, {"fn": f.qual, "clause": cl, "bound": False})
+                rep.violation(rid, key, "%s takes a Map apart without binding its `%s`: the clause is dropped from the rebuilt Map" % (f.qual, cl), f.where())
+                continue
+            var = bound[cl]
+            uses = []
+            for st in rest:
+                for x in walk(st):
+                    if x["k"] == "mcall":
+                        r = x
+                        chain = []
+                        while r["k"] == "mcall":
+                            chain.insert(0, r)
+                            r = r["recv"]
+                        if path_of(r) == var and chain and x is chain[-1]:
+                            uses.append(chain)
+            # keep maximal chains only (walk yields every prefix of a chain as its own mcall)
+            best = [c for c in uses if not any(len(o) > len(c) and o[: len(c)] == c for o in uses)]
+            ok, how = False, None
+            for c in best:
+                ms = [m["m"] for m in c]
+                if ms in (["into_iter", "fold"], ["iter", "fold"]) and len(c[-1]["args"]) == 2 and c[-1]["args"][1]["k"] == "closure":
+                    clo = c[-1]["args"][1]
+                    b = clo["body"]
+                    while b["k"] == "block" and len(b["stmts"]) == 1 and b["stmts"][0]["k"] == "expr":
+                        b = b["stmts"][0]["e"]
+                    ps = [pp.get("name") for pp in clo["params"]]
+                    if b["k"] == "mcall" and b["m"] == cl and len(ps) == 2 and path_of(b["recv"]) == ps[0] and any(y["k"] == "path" and y["segs"][0] == ps[1] for a in b["args"] for y in walk(a)):
+                        ok, how = True, "into_iter().fold"
+            if not ok and cl == "filter":
+                # filter_with: `let filter = if let Some(x) = filter { Expr::and(x, predicate) } else { predicate }; builder.filter(filter)`
+                for st in rest:
+                    if st["k"] == "let" and st["pat"]["k"] == "ident" and st.get("init") is not None and st["init"]["k"] in ("iflet", "if", "match"):
+                        e = st["init"]
+                        t = show(e, 0).replace(" ", "")
+                        if t.startswith("ifletSome(") and ("=%s{" % var) in t and "Expr::and(" in t and e.get("else") is not None:
+                            nm = st["pat"]["name"]
+                            if any(x["k"] == "mcall" and x["m"] == "filter" and x["args"] and path_of(x["args"][0]) == nm for s2 in rest for x in walk(s2)):
+                                ok, how = True, "conjoined with the new predicate"
+            rep.instance(rid, key, {"fn": f.qual, "clause": cl, "reapplied": how})
+            if not ok:
+                rep.violation(
+                    rid,
+                    key,
+                    "%s does not re-apply the `%s` of the Map it rebuilds unconditionally (uses: %s)" % (f.qual, cl, "; ".join(".".join(m["m"] for m in c) for c in best) or "none"),
+                    f.where(),
+                )
+    if not n:
+        raise Anchor("relation/builder.rs: no function takes a Map apart")
+
 def b2(rep, src, rid="B2"):
     """MapBuilder / ReduceBuilder: a filter is only kept in an existing Map split, so projections come first."""
     rep.rule(
@@ -1182,5 +1262,6 @@ def run(rep):
 
     b1(rep, Mir(facts.mir_facts()), ["differential_privacy::", "relation::rewriting::"], rid="B1")
     b2(rep, src)
+    b3(rep, src)
     rep.assume("rustc accepts the tree (the syn facts are parsed from the same files the build uses)")
     rep.assume("method names unique / limit_col_contributions / add_gaussian_noise / filter_columns / filter_fields on a Relation resolve to relation/rewriting.rs (no other impl defines them for Relation)")
